@@ -211,6 +211,29 @@ def check(ctx):
         t_, part_ = try_of(enclosing_stmt(ys[0]))
         ok = t_ is not None and part_ == "body" and bool(t_.finalbody) and "Callback.active = callbacks" in unparse(ast.Module(body=t_.finalbody, type_ignores=[]))
     ctx.ob("SCOPE.local-callbacks.finally", lc, "local_callbacks restores Callback.active in a finally around the yield (also when the scheduler raises)", ok, "" if ok else "after a failing computation the globally active callbacks stay swapped out: later computations call none of them")
+    # ---------------- a failing task completes its Future on the Pool path too
+    saa = (model if "model" in dir() else ctx.model).module("dask/local.py").func("submit_apply_async")
+    cs_ = [c for c in calls(saa, "apply_async")]
+    ok = len(cs_) == 1
+    if ok:
+        c = cs_[0]
+        pos = [unparse(a) for a in c.args]
+        kws = {k.arg: unparse(k.value) for k in c.keywords}
+        okc = (len(pos) >= 4 and pos[3] == "fut.set_result") or kws.get("callback") == "fut.set_result"
+        oke = (len(pos) >= 5 and pos[4] == "fut.set_exception") or kws.get("error_callback") == "fut.set_exception"
+        ok = okc and oke
+    ctx.ob("PAIR.future.both-callbacks", saa, "apply_async(fn, args, kwargs, fut.set_result, fut.set_exception): the future is completed on success AND on failure", ok, "" if ok else "a failing task never completes its future: get_async waits for ever, no exception surfaces and the finish callbacks never run")
+    # ---------------- in-process executors surface the task's own exception object
+    dpe = (model if "model" in dir() else ctx.model).module("dask/local.py").func("default_pack_exception")
+    body = [s_ for s_ in dpe.body if not (isinstance(s_, ast.Expr) and isinstance(s_.value, ast.Constant))]
+    ok = len(body) == 1 and isinstance(body[0], ast.Raise) and eqv(body[0].exc, "e")
+    ctx.ob("EXC.default-pack.reraise", dpe, "default_pack_exception re-raises the task's exception itself (`raise e`)", ok, "" if ok else "packing (exception, traceback) with dumps fails for process-based executors (tracebacks cannot be pickled): the pickling error replaces the task's exception")
+    # ---------------- argument evaluation never runs inside an iterator protocol that swallows StopIteration
+    tcall = (model if "model" in dir() else ctx.model).module("dask/_task_spec.py").func("Task.__call__")
+    maps = [c for c in calls(tcall, "map")]
+    na = find("new_argspec = M_v", tcall)
+    ok = not maps and len(na) == 1 and isinstance(na[0][1]["M_v"], ast.Call) and call_name(na[0][1]["M_v"]) == "tuple" and isinstance(na[0][1]["M_v"].args[0], ast.ListComp)
+    ctx.ob("EXC.task-call.no-map", tcall, "Task.__call__ evaluates its arguments in a list comprehension, not through map()/a generator", ok, "" if ok else "a StopIteration raised by a nested task ends the iterator silently: the consumer runs with truncated arguments and the failure never surfaces")
 
 
 def try_of_outer(node, t):
